@@ -150,6 +150,25 @@ def generate(tier, seed, work, stats):
         nts = ["S", "L", "T"] + ["A%d" % i for i in range(size)]
         cases.append(dict(kind="ig", rules=other + ring, nts=nts, idx=["f", "g"], maxperm=8, family="directed-ring-counter"))
         cases.append(dict(kind="ig", rules=ring + other, nts=nts, idx=["f", "g"], maxperm=8, family="directed-ring-counter"))
+    # twin productions: several left sides push the same index on the same right term, whose marks are composite (a
+    # duplication below consumption rules); each twin must receive the marks whichever of them is processed first
+    for i1 in ("f", "g"):
+        for lefts in (["Z", "S"], ["S", "Z"], ["Z", "Y", "S"], ["S", "Y", "Z"]):
+            for drop in (None, 0, 1):
+                pops = [["pop", i1, "C", "E"], ["pop", i1, "D", "E"]]
+                if drop is not None:
+                    pops[drop] = ["pop", "g" if i1 == "f" else "f", pops[drop][2], "E"]     # the grammar becomes empty
+                twins = [["push", x, "B", i1] for x in lefts]
+                rest = [["dup", "B", "C", "D"]] + pops + [["end", "E", "a"]]
+                nts = ["S", "Z", "Y", "B", "C", "D", "E"]
+                cases.append(dict(kind="ig", rules=twins + rest, nts=nts, idx=["f", "g"], maxperm=24, family="directed-twin-productions"))
+                cases.append(dict(kind="ig", rules=rest + twins, nts=nts, idx=["f", "g"], maxperm=24, family="directed-twin-productions"))
+        # the twins sit under a duplication of the start variable
+        twins = [["dup", "S", "T", "U"], ["push", "T", "B", i1], ["push", "U", "B", i1]]
+        rest = [["dup", "B", "C", "D"], ["pop", i1, "C", "E"], ["pop", i1, "D", "E"], ["end", "E", "a"]]
+        nts = ["S", "T", "U", "B", "C", "D", "E"]
+        cases.append(dict(kind="ig", rules=twins + rest, nts=nts, idx=["f", "g"], maxperm=24, family="directed-twin-productions"))
+        cases.append(dict(kind="ig", rules=rest + twins, nts=nts, idx=["f", "g"], maxperm=24, family="directed-twin-productions"))
     # intersections with automata of the FA generator (terminal "a")
     ops = []
     for kind in ("enfa", "dfa"):
